@@ -661,6 +661,8 @@ func runC01(h *H) {
 		}
 		h.DoRisky("json.marshal", strconv.FormatUint(sub, 10), setting, by)
 	}
+	// float layer: encodeFloat against the Lean model / stdlib rule, destination prefixes of every shape (c01float.go)
+	genEncFloat(h)
 }
 
 // rawDoc: a VALID JSON text with insignificant white space, strings that end in escaped backslashes or quotes, HTML
